@@ -9,6 +9,7 @@ flavours and concurrent async groups.
 """
 from __future__ import annotations
 
+import random
 import typing as t
 
 from checks import common, drive, offline, plan as P
@@ -127,6 +128,14 @@ def gen_plan(rng, i: int, tier: str) -> dict:
             else:
                 ops.append({"op": "protect", "fl": rng.choice(("sync", "async")), "sid": rng.choice(SIDS), "rk": rng.choice((0, None)),
                             "net": "online", "data": rng.choice((0, 5, 16)), "same_data": rng.random() < 0.7})
+    if kind in ("concurrent", "identical-offline", "identical-online-seed") and plan["seed"] % 3 == 0:
+        # the same protects made by caller threads of one process (sync API, shared cache): simworld.threads decides every pre-emption
+        r = random.Random(plan["seed"])
+        for o in ops:
+            if o["op"] == "protect":
+                o["fl"], o["group"] = "thread", 1
+        plan["threads"] = {"mode": "prob", "p": r.choice((0.005, 0.05, 0.3))} if r.random() < 0.5 else {"mode": "points", "n": r.choice((1, 2, 4)), "horizon": r.choice((300, 3000, 20000))}
+        plan["kind"] = "threads"
     return plan
 
 
@@ -135,7 +144,8 @@ class C19(common.Check):
     level = "exploration"
     rule = ("case = a history (plan) of 2..64 protect calls at a frozen simulated instant with a ledger entropy source: identical arguments "
             "offline (root key), identical online (seed reply / public-key reply for DH, P256, P384), mixed histories with interleaved "
-            "unprotects and cache reuse, concurrent async groups sharing one cache (PRNG-scheduled), and histories in which the process forks "
+            "unprotects and cache reuse, concurrent async groups sharing one cache (PRNG-scheduled), the same protects made by caller threads of one "
+            "process through the sync API (pre-empted at PRNG-chosen line events inside dpapi_ng), and histories in which the process forks "
             "after a protect and parent and child both go on protecting, and histories whose key position alternates (clock stepping between two "
             "intervals and back, two root keys used in turn) (the child's entropy source is re-keyed, buffered state is shared). From each emitted blob the "
             "reference extracts GCM nonce and key_info and recovers the CEK; all must be pairwise distinct within the history. "
@@ -143,7 +153,7 @@ class C19(common.Check):
     components = {"client": "real (public API, KeyCache, _encrypt_blob, cek_generate, new_kek)", "entropy": "simulated (os.urandom and AESGCM.generate_key seams, ledger)",
                   "clock": "simulated, frozen", "DC": "model (RefDC)", "security context": "stub (StubCtx)", "blob opener": "model (ref.cms/ref.gkdi)"}
     assumptions = ["the simulated entropy source never repeats a draw; real-world collision probability of fresh 96/256-bit values is outside the claim"]
-    required_fired = ("mode_pub", "mode_nonce", "provenance_ok", "forked_histories", "alternating_positions")
+    required_fired = ("mode_pub", "mode_nonce", "provenance_ok", "forked_histories", "alternating_positions", "thread_histories", "thread_overlap")
 
     def cases(self, tier, seed):
         rng = prng.stream(seed, "C19")
@@ -187,10 +197,13 @@ class C19(common.Check):
             probes["forked_histories"] = 1
         if case.get("kind") == "alternating":
             probes["alternating_positions"] = 1
+        if case.get("kind") == "threads":
+            probes["thread_histories"] = 1
+            probes["thread_overlap"] = tr.world.stats.get("toverlap", 0)
         return {"viol": viol, "digest": tr.world.digest(), "key": common.key_hash(case) if probes.get("protects_ok", 0) >= 2 else None,
                 "sched_key": common.key_hash(tr.schedule) if tr.schedule else None,
                 "fired": {"entropy_draws": tr.world.entropy.counter, "concurrent_groups": int(case["kind"] == "concurrent"),
-                          "choice_points": tr.world.stats.get("choice_points", 0)},
+                          "choice_points": tr.world.stats.get("choice_points", 0), "thread_preemptions": tr.world.stats.get("tswitch", 0)},
                 "probes": {k: v for k, v in probes.items() if k != "protects_ok"} | {"protect_calls": probes.get("protects_ok", 0)},
                 "vtime_ns": tr.world.stats.get("vtime_ns", 0)}
 
@@ -205,6 +218,7 @@ class C19(common.Check):
         for i, o in enumerate(ops):
             if o.get("fl") == "async":
                 yield dict(case, ops=ops[:i] + [dict(o, fl="sync", group=None)] + ops[i + 1 :])
+        yield from P.thread_shrinks(case)
 
     def sample_repr(self, case, res):
         return {"kind": case["kind"], "root_key": case["root_keys"][0], "ops": [(o["op"], o.get("fl"), o.get("net"), o.get("sid", "")[-4:]) for o in case["ops"]][:12]}
